@@ -593,7 +593,7 @@ def main():
 
     txt = "(* GENERATED by translators/tr_layouts.py from src/tables.rs, src/tables/os2.rs, src/post.rs, src/tables/glyf.rs,\n"
     txt += "   src/tables/loca.rs, src/cff.rs, src/binary/write.rs — do not edit *)\n"
-    txt += "From AV Require Import Base.Prelude Model.Layout.\nOpen Scope Z_scope.\nLocal Open Scope fname_scope.\n\n"
+    txt += "From AV Require Import Base.Prelude Model.TableLayout.\nOpen Scope Z_scope.\nLocal Open Scope fname_scope.\n\n"
     for name, comment, ty, body in defs:
         if comment:
             txt += "(* %s *)\n" % comment
